@@ -126,6 +126,8 @@ def run(F, ck, tier):
     # R09.9 every length / presence of the STARK proof is pinned before use
     ck.rule('R09.9', 'every Vec length, cap height and Option presence in the STARK proof type is pinned by an equality guard that must hold (a disjunct another disjunct can satisfy does not count)')
     pins.check(F, ck, 'R09.9', labels={'stark'}, floor=10)
+    ck.rule('R09.10', 'prover, verifier and in-circuit verifier build the simulated opening set with the same per-challenge count (as a function of T and P)')
+    simulation_siblings(F, ck, 'R09.10')
     # R09.6 cap order (native and circuit)
     for fq in ('starky::verifier::verify_stark_proof_with_challenges', 'starky::recursive_verifier::verify_stark_proof_with_challenges_circuit'):
         fn = F.one(fq, crate='starky')
@@ -183,3 +185,64 @@ def stark_transcript(F, ck):
         c04.run_protocols(F, ck)
     finally:
         c04.SIDES = saved
+
+
+def simulation_siblings(F, ck, rule):
+    """the zero-knowledge-free 'simulated opening set' that prover, verifier and in-circuit verifier absorb before sampling zeta
+    is built three times; the per-challenge count must be the same function of (T = total evaluations, P = powers per challenge)"""
+    from . import poly
+    from .facts import walk
+    E = poly.Ev(F)
+    found = {}
+    for fn in F.fns.values():
+        if fn.crate != 'starky' or fn.body is None:
+            continue
+        for n in walk(fn.body):
+            if n.get('k') == 'MCall' and n['n'] == 'get_n_extension_challenges' and n.get('a'):
+                cnt = n['a'][-1]
+                if cnt.get('k') == 'MCall' and cnt['n'] == 'div_ceil' and cnt['r'].get('k') == 'Local' and cnt['a'] and cnt['a'][0].get('k') == 'Local':
+                    found[fn.qual] = (fn, cnt['r'], cnt['a'][0])
+    ck.floor(rule, 'builders of the simulated opening set (prover, verifier, circuit)', len(found), 3)
+    polys = {}
+    for q, (fn, tl, pl) in sorted(found.items()):
+        env = {tl['id']: poly.sym('T'), pl['id']: poly.sym('P')}
+        # lets of the function body that depend only on T and P
+        for s in walk(fn.body):
+            if s.get('k') == 'Let' and 'i' in s and s['p'].get('k') == 'Bind' and s['p']['id'] not in env:
+                try:
+                    v = E.ev(fn, s['i'], env, 2)
+                    if all(all(x in ('T', 'P') or x.startswith(('min(', 'max(')) for x in m) for m in v):
+                        env[s['p']['id']] = v
+                except poly.Unknown:
+                    pass
+        counts = []
+        for n in walk(fn.body):
+            node = None
+            if n.get('k') == 'MCall' and n['n'] == 'take' and n.get('a'):
+                node, adj = n['a'][0], 0
+            elif n.get('k') == 'For' and n['it'].get('k') == 'Struct' and 'Range' in (n['it'].get('d') or ''):
+                f = dict(n['it']['f'])
+                if 'end' in f and 'start' in f:
+                    node, adj = f['end'], None
+                    try:
+                        st = E.ev(fn, f['start'], env, 2)
+                    except poly.Unknown:
+                        continue
+            if node is None:
+                continue
+            try:
+                v = E.ev(fn, node, env, 2)
+            except poly.Unknown:
+                continue
+            if not any(any(x.startswith('min(') for x in m) for m in v):
+                continue
+            if adj is None:
+                # `powers` starts with one element and the loop runs start..end: elements = 1 + end - start
+                v = poly.add(poly.add(v, st, -1), poly.const(1))
+            counts.append(poly.show(v))
+        polys[q] = sorted(set(counts))
+    vals = {tuple(v) for v in polys.values()}
+    ok = len(vals) == 1 and all(len(v) == 1 for v in vals)
+    ck.ob(rule, 'simulated-openings:per-challenge-count', ok, 'all builders take %s powers per simulating challenge' % (list(vals)[0][0] if ok else '?') if ok else
+          'SIBLING DISAGREEMENT: the simulated opening set is built with different per-challenge counts: %s - prover and verifier then absorb different dummy openings, derive different zeta and every honest proof is rejected '
+          '(or the vectors are sliced out of range)' % '; '.join('%s: %s' % (k, v) for k, v in sorted(polys.items())))
